@@ -29,7 +29,7 @@ REQUIRED = ["history.reports_succeed", "history.live_set", "history.solve", "his
             "history.phases", "history.save", "history.structure", "shown.params", "shown.limits", "shown.phases",
             "detour.extra_add_delete", "detour.replace_kind", "detour.rename_late", "detour.via_intermediate",
             "detour.mux_input_reparented", "detour.move", "detour.scratch_until_end", "detour.mux_via_temp_rail",
-            "detour.scratch_mux_deleted_via_its_source"]
+            "detour.scratch_mux_deleted_via_its_source", "detour.namesake_deleted_as_descendant"]
 SIZES = {"quick": 110, "thorough": 900}
 ASSUMPTIONS = ["numeric cells are compared to 1e-9 relative (summation order of sibling currents depends on edge order)",
                "a detour history in which the code rejects a call is outside the quantifier (successful histories) and is "
@@ -121,7 +121,7 @@ def plan_history(rng, T, rate):
         parents_now = [cur[p] for p in c["parents"]]
         has_mux = any(tmpl[x]["kind"] == "PMux" for x in cur)
         detour = rng.random() < rate
-        how = rng.choice(["extra", "replace", "rename_late", "intermediate", "other_params", "move"]) if detour else "direct"
+        how = rng.choice(["extra", "replace", "rename_late", "intermediate", "other_params", "move", "shadow"]) if detour else "direct"
         if how == "move":
             # the component is first hung on the wrong parent, the system is analysed, then the component is moved
             # (deleted and re-added under its real parent - node index and edge count are the same as before)
@@ -155,6 +155,24 @@ def plan_history(rng, T, rate):
                             "rail": tmpl[real].get("rail", "")})
                 used.append("mux_via_temp_rail")
                 continue
+        if how == "shadow" and c["kind"] not in ("Source", "PMux") and tmpl[c["parents"][0]]["kind"] != "PMux":
+            # an EARLIER namesake: a component of the same name (other parameters, sometimes another kind) first lives
+            # below a scratch element, is reported on, and disappears as a DESCENDANT when that element is deleted with
+            # its children; only then the real component is added under its real parent
+            extra_n[0] += 1
+            dn = "~d%d" % extra_n[0]
+            ops.append({"op": "add_comp", "parent": parents_now[0], "comp": hist.comp_entry(rng, rng.choice(["RLoss", "PSwitch"]), dn)})
+            if c["kind"] in S.LOADS:
+                ghost = hist.comp_entry(rng, rng.choice(["PLoad", "ILoad", "RLoad"]), n)
+            else:
+                ghost = hist.comp_entry(rng, rng.choice([c["kind"], "RLoss", "Converter"]), n)
+            ops.append({"op": "add_comp", "parent": dn, "comp": ghost, "group": rng.choice(["", "gh"])})
+            ops.append({"op": "analyse", "what": rng.choice(["params", "params", "solve", "phases", "save"])})
+            ops.append({"op": "del_comp", "name": dn, "del_childs": True})
+            ops.append(add_op(c, entry(c), parents_now, c.get("rail", "")))
+            cur[n] = n
+            used.append("namesake_deleted_as_descendant")
+            continue
         if how == "extra":
             # an extra component (sometimes with a child) that is deleted again, freeing node indices
             nonload = [cur[x] for x in cur if tmpl[x]["kind"] not in S.LOADS]
@@ -391,7 +409,7 @@ def _audit(ctx, ns, rng, T, E, det, ops, where="final"):
             txt = resE["tree"][1]
             missing = [n for n in names if n not in txt]
             # (temporary names are legitimately alive in an intermediate state)
-            ghosts = [t for t in ("~x", "~t_", "~i", "~s", "~r_", "~q") if t in txt] if where == "final" else []
+            ghosts = [t for t in ("~x", "~t_", "~i", "~s", "~r_", "~q", "~d") if t in txt] if where == "final" else []
             ctx.check("history.live_set", not missing and not ghosts, dict(det, tree_missing=missing, ghosts=ghosts))
         # values equal to the freshly built system
         for name, keys in (("solve", ("Component", "Phase")), ("rail_rep", ("Rail", "Phase", "Component")),
